@@ -1,4 +1,4 @@
-// C11 part 1: conversions (assign_r / construct between type pairs), part a
+// C11 part 1: conversions (assign_r / construct between type pairs), part e
 #include "harness/c11_cells.hh"
 namespace c11 {
 using namespace PPL;
@@ -20,5 +20,5 @@ template <class To> static void to_all() {
   pair<To, long>(); pair<To, unsigned long>(); pair<To, long long>(); pair<To, unsigned long long>();
   pair<To, float>(); pair<To, double>(); pair<To, long double>(); pair<To, mpz_class>(); pair<To, mpq_class>();
 }
-void register_conv_a() { to_all<signed char>(); to_all<unsigned char>(); to_all<short>(); }
+void register_conv_e() { to_all<long double>(); to_all<mpz_class>(); to_all<mpq_class>(); }
 }
